@@ -97,6 +97,16 @@ func (c *chunkReader) Read(p []byte) (int, error) {
 	}
 	n := copy(p, c.chunks[0])
 	c.chunks[0] = c.chunks[0][n:]
+	if c.end == "eofdata" {
+		// the last bytes come together with io.EOF, as io.Reader allows
+		rest := 0
+		for _, ch := range c.chunks {
+			rest += len(ch)
+		}
+		if rest == 0 {
+			return n, io.EOF
+		}
+	}
 	return n, nil
 }
 func (c *chunkReader) Close() error { c.closed = true; return nil }
